@@ -17,7 +17,7 @@ EXPLANATION = (
     'must decode to its own descriptors in argument order, consuming exactly the declared count. send: '
     'sendMessage emits the descriptors in argument order before the bytes and the header declares their count. '
     'client: callRemote uses a fresh out-of-band list per call.')
-BOUNDS = {'quick': 'recv: 6 message sequences of 2-3 messages with 0-3 descriptors each, schedule of <= 9 symbolic steps, '
+BOUNDS = {'quick': 'recv: 10 message sequences of 2-3 messages with 0-3 descriptors each, schedule of <= 9 symbolic steps, '
                    'one cut inside each message', 'thorough': 'recv: 14 sequences, two cut positions per message'}
 ASSUMPTIONS = ['message bytes are concrete (descriptor numbers travel out of band), the schedule and the numbers are symbolic',
                'arrival orders a stream socket cannot produce (a descriptor after the last byte of its message) are outside the claim']
@@ -29,7 +29,7 @@ SEQS_THOROUGH = SEQS_QUICK + [[0, 0], [3, 3], [1, 2, 3], [0, 1, 0], [2, 1], [1, 
 
 def obligations(tier):
     obs = []
-    seqs = SEQS_QUICK if tier == 'quick' else SEQS_THOROUGH
+    seqs = (SEQS_QUICK + [[0, 0], [2, 1], [0, 1, 0], [1, 3]]) if tier == 'quick' else SEQS_THOROUGH
     cutsets = [[0.5]] if tier == 'quick' else [[0.5], [0.1, 0.9]]
     for s in seqs:
         for ci, cs in enumerate(cutsets):
